@@ -182,6 +182,10 @@ def run_async(desc, tier, seed, res):
         for _ in range(2000 if driver != "hasseb" else 0):
             cmds.append(command.from_frame(frame.ForwardFrame(24, r.getrandbits(24) | 0x010000)))
     if desc["mode"] == "classes":
+        # enough queries that every outcome report is met in every shape the gateway model gives it
+        import dali.gear.general as gg2
+        from dali import address as A2
+        cmds = cmds + [q(A2.GearShort(k)) for k in range(2, 62, 3) for q in (gg2.QueryPowerOnLevel, gg2.QueryMinLevel, gg2.QueryPhysicalMinimum)]
         # a command object is a value: sending the same object again gives the same packet (every 5th object is sent twice,
         # the second time at the end of the run)
         cmds = cmds + cmds[::5]
@@ -253,6 +257,12 @@ def run_async(desc, tier, seed, res):
         if simlib.detached(out):
             res.inconclusive.append('harness detached: ' + str(out))
             return
+        if not stalled and isinstance(out, (asyncio.TimeoutError, TimeoutError)) and sim.attached() and not marks:
+            # the driver opened the (model of the) gateway, the gateway answered the connection handshake the way its protocol
+            # prescribes, and the driver never got as far as sending a command: it did not understand well-formed packets
+            res.violation(f"C18/{driver}/handshake-replies-not-understood", f"connect() to the {driver} gateway model timed out although the "
+                          f"model answered every handshake request ({len(writes())} packets written by the driver)", {"driver": driver})
+            return
         if stalled or out is not True:
             res.inconclusive.append(f"C18 {driver}: simulation ended with {'a stall' if stalled else repr(out)}")
             return
@@ -295,6 +305,15 @@ def run_async(desc, tier, seed, res):
         from dali import frame as F
         own = [w_ for w_ in sim.bus.wire if w_["origin"] == "own"]
         for mi, (c, a, b, exc) in enumerate(marks):
+            if exc is not None and c.response is not None and b > a and type(exc).__name__ not in ("UnsupportedFrameTypeError",):
+                # the query went out and the gateway reported on it; whatever the report, it denotes an outcome
+                f = c.frame
+                ent = [w_ for w_ in own if (w_["width"], w_["value"]) == (len(f), f.as_integer)]
+                rep_ = ent[-1]["answer"] if ent else "?"
+                res.violation(f"C18/{driver}/report-decoding/raised/{type(exc).__name__}",
+                              f"{c}: the gateway reported {rep_} for this command, send() raised {type(exc).__name__}: {exc}",
+                              {"driver": driver, "command": str(c)})
+                continue
             if exc is not None or c.response is None or mi not in results:
                 continue
             f = c.frame
@@ -600,6 +619,40 @@ def run_legacy(seed, res):
         orig_sleep_h = Hm.time.sleep
         Hm.time.sleep = lambda t: None
         try:
+            # every packet the driver writes - DALI frames, sniffer configuration, firmware-version requests - takes the next
+            # sequence number: 1..255, never the one just used
+            class SeqDevice(FakeHidDevice):
+                def read(self, n):
+                    if self.reports:
+                        return self.reports.pop(0)
+                    last = self.written[-1] if self.written else bytes(10)
+                    if last[1] == getattr(Hm, "HASSEB_READ_FIRMWARE_VERSION", 0x02):
+                        return bytes([0xAA, last[1], last[2], 1, 5, 0, 0, 0, 0, 0])
+                    return bytes([0xAA, 0, 0, 0, 0, 0, 0, 0, 0, 0])
+            rs = rng(seed, "C18", "legacy-hasseb-seq")
+            for first in ("send", "enableSniffing", "disableSniffing", "readFirmwareVersion"):
+                sd = Hm.SyncHassebDALIUSBDriver.__new__(Hm.SyncHassebDALIUSBDriver)
+                sd.sn = 0
+                sd.logger = logging.getLogger("hasseb-c18")
+                sd.device = SeqDevice()
+                ops = [first] + [rs.choice(["send", "send", "send", "enableSniffing", "disableSniffing", "readFirmwareVersion"]) for _ in range(560)]
+                for op in ops:
+                    try:
+                        if op == "send":
+                            sd.send(gg_.DAPC(A_.GearShort(rs.randrange(64)), rs.randrange(255)))
+                        elif hasattr(sd, op):
+                            getattr(sd, op)()
+                    except Exception as e:
+                        res.observe(f"legacy-hasseb-{op}-raises-{type(e).__name__}", str(e)[:80])
+                prev_sn, prev_kind = None, None
+                for pk in sd.device.written:
+                    res.hit("sequence_numbers_checked")
+                    if len(pk) < 3 or not (1 <= pk[2] <= 255) or pk[2] == prev_sn:
+                        res.violation("C18/legacy-hasseb/sequence", f"packet {pk.hex()} (type {pk[1]:#04x}) carries sequence number "
+                                      f"{pk[2] if len(pk) > 2 else None}; the packet before it (type {prev_kind}) carried {prev_sn}; "
+                                      f"first operation of the instance: {first}", {"driver": "legacy hasseb", "first": first})
+                        break
+                    prev_sn, prev_kind = pk[2], f"{pk[1]:#04x}"
             for status, v in ((1, 0), (2, 0x5A), (2, 0), (2, 255), (3, 0x11)):
                 sd = Hm.SyncHassebDALIUSBDriver.__new__(Hm.SyncHassebDALIUSBDriver)
                 sd.sn = 0
